@@ -379,7 +379,9 @@ class SelectedMailbox:
         permanent_flag_set = self.permanent_flags & flag_set
         session_flag_set = session_flags & flag_set
         for _, msg in self._messages.get_all(seq_set):
-            msg_flags = msg.permanent_flags
+            # the flags this session was last told, a cached message may be
+            # the backend's live object and hold another session's changes
+            _, msg_flags = self._messages._flags_key_map[msg.uid]
             msg_sflags = session_flags.get(msg.uid)
             updated_flags = flag_op.apply(msg_flags, permanent_flag_set)
             updated_sflags = flag_op.apply(msg_sflags, session_flag_set)
